@@ -312,6 +312,13 @@ class Sim(object):
                 self.violate('O5.exc', op, {'class': cls, 'msg': str(val)})
         elif kind == 'cancel':
             self.count('cancelled')
+        if ctx.recv_inf is not None and kind in ('cancel', 'budget'):
+            # a documented mutator was interrupted: its receiver may be half-set, which C20 does
+            # not forbid, and no caller would go on using it -> the object leaves the pool
+            for h in [h for h, o in pool.handles.items() if o is ctx.recv]:
+                del pool.handles[h]
+                pool.owner.pop(h, None)
+            self.count('probe.receiver_dropped_after_cancelled_mutator')
         self.clones[op['id']] = ctx.clones
         self.records.append(rec)
         self.events.append(('op', op['id'], op['name'], kind, digest_obj(rec['res']), digest_obj(rec['recv_post']),
